@@ -412,7 +412,7 @@ func atomicLoad(fr *frame, args []value) value {
 	if p == nil {
 		panic(fr.i.nilDeref())
 	}
-	fr.i.hbAcqRel(fr.i.curTask, p)
+	fr.i.hbAtomic(fr, p)
 	return *p
 }
 
@@ -422,7 +422,7 @@ func atomicStore(fr *frame, args []value) value {
 		panic(fr.i.nilDeref())
 	}
 	fr.i.noteStore(p)
-	fr.i.hbAcqRel(fr.i.curTask, p)
+	fr.i.hbAtomic(fr, p)
 	*p = args[1]
 	return nil
 }
@@ -431,7 +431,7 @@ func atomicSwap(fr *frame, args []value) value {
 	p := args[0].(*value)
 	old := *p
 	fr.i.noteStore(p)
-	fr.i.hbAcqRel(fr.i.curTask, p)
+	fr.i.hbAtomic(fr, p)
 	*p = args[1]
 	return old
 }
@@ -442,7 +442,7 @@ func atomicAdd(k types.BasicKind) intrinsic {
 			t := types.Typ[k]
 		nv := fr.i.binop(tokenADD, t, t, *p, args[1])
 		fr.i.noteStore(p)
-		fr.i.hbAcqRel(fr.i.curTask, p)
+		fr.i.hbAtomic(fr, p)
 		*p = nv
 		return nv
 	}
@@ -451,7 +451,7 @@ func atomicAdd(k types.BasicKind) intrinsic {
 func atomicCAS(fr *frame, args []value) value {
 	i := fr.i
 	p := args[0].(*value)
-	i.hbAcqRel(i.curTask, p)
+	i.hbAtomic(fr, p)
 	var eq value
 	switch old := args[1].(type) {
 	case unsafePtr:
